@@ -145,6 +145,16 @@ def _work_run(args):
     wd = os.path.join(core.VERIF, ".work", f"c14-{os.getpid()}")
     os.makedirs(wd, exist_ok=True)
     outp = os.path.join(wd, "out.pqr")
+    if "@again" in opts:
+        # the heavy atoms of a first run's result are the input: the debumper starts from its own best angles, so a scan
+        # that ends without improvement (and puts the residue back) is reached
+        opts = [o for o in opts if o != "@again"]
+        r0 = runner.run(opts + [f"--pdb-output={os.path.join(wd, 'first_H.pdb')}", path, os.path.join(wd, "first.pqr")])
+        if r0["ok"]:
+            heavy = [ln for ln in open(os.path.join(wd, "first_H.pdb")).read().split("\n")
+                     if not (ln.startswith(("ATOM", "HETATM")) and ln[12:16].strip().lstrip("0123456789").startswith("H"))]
+            path = os.path.join(wd, "again.pdb")
+            open(path, "w").write("\n".join(heavy))
     r = runner.run(opts + [path, outp], groups={"cells", "coords", "atoms"}, qmode="cell")
     segs = segments(r["tracer"].events)
     for s in segs:
@@ -179,7 +189,7 @@ def validate(ctx, traces, size, label):
             continue
         if v[0] == "END":
             ended.add(v[1])
-        elif v[0] in ("K", "P", "R", "X", "Q"):
+        elif v[0] in ("K", "P", "R", "X", "Q", "S"):
             got[v[1]].append(v)
     missing = [t["id"] for t in traces if t["id"] not in ended]
     if missing:
@@ -246,6 +256,17 @@ def judge(ctx, traces, verdicts, origin_default):
                     ctx.violation({"invariant": "QuerySound", "cause": "ghost", "culprit": fr},
                                   f"{origin}: query #{l} of atom {a} returns atom {b} that left the structure in {fr}",
                                   {"origin": origin, "event": l, "atom": a, "ghost": b})
+            elif kind == "S":
+                for b in v[3]:
+                    fr = ""
+                    for e in t["ev"]:
+                        if e["a"] == b and e["e"] == "add":
+                            fr = ""
+                        elif e["a"] == b and e["e"] == "set":
+                            fr = e.get("fr", "")
+                    ctx.violation({"invariant": "Consistent", "cause": "stale-at-end", "culprit": fr},
+                                  f"{origin}: when the cell list was last used atom {b} was filed in the cell of an earlier position "
+                                  f"(moved by {fr} without remove_cell / add_cell)", {"origin": origin, "atom": b})
             elif kind == "K":
                 ctx.violation({"invariant": "KeyConformance", "cause": "arithmetic", "culprit": "Cells.add_cell"},
                               f"{origin}: add_cell put atom {v[3]} at {t['ev'][l-1]['p']} into cell {v[4]}, "
@@ -349,12 +370,34 @@ def run(ctx):
     # (T) traced pipeline runs
     data = os.path.join(core.REPO, "tests", "data")
     runs = [(os.path.join(data, "1AJJ.pdb"), ["--ff=AMBER"]),
-            (os.path.join(data, "cterm_hid.pdb"), ["--ff=PARSE"])]
+            (os.path.join(data, "cterm_hid.pdb"), ["--ff=PARSE"]),
+            (os.path.join(data, "5vav_cyclic_peptide.pdb"), ["--ff=AMBER"])]      # has atoms with a coordinate of exactly 0.000
+    # hard clashes (waters on the positions of future hydrogens): the debumper scans, fails, restores
+    from .c04 import clash_inputs
+    hard = [j for j in clash_inputs(ctx, random.Random(ctx.seed + 5)) if j.get("light")]
+    os.makedirs(ctx.work, exist_ok=True)
+    for n, j in enumerate(hard[:(24 if ctx.quick else 200)]):
+        pth = os.path.join(ctx.work, f"clash{n}.pdb")
+        open(pth, "w").write(j["text"])
+        runs.append((pth, ["--ff=AMBER", "--noopt"]))
     if not ctx.quick:
         runs += [(os.path.join(data, "1BX8.pdb"), ["--ff=CHARMM"]),
                  (os.path.join(data, "5vav_cyclic_peptide.pdb"), ["--ff=AMBER", "--noopt"]),
                  (os.path.join(data, "1A1P.pdb"), ["--ff=SWANSON", "--nodebump"]),
                  (os.path.join(data, "1K1I.pdb"), ["--ff=AMBER"])]
+    # a clash no rotation can improve: a water on the CA->CB axis beyond CB (the scan of chi1 ends without improvement)
+    from .. import gen
+    import numpy as np
+    types = [x for x in gen.AMINO if x not in ("GLY", "ALA", "PRO")]
+    for n, x in enumerate(types if not ctx.quick else types[ctx.seed % 2::2]):
+        pep = gen.peptide(["ALA", x, "ALA"])
+        by = {a["name"]: a["xyz"] for a in pep if a["res_index"] == 1}
+        u = (by["CB"] - by["CA"]) / np.linalg.norm(by["CB"] - by["CA"])
+        for d in ((1.3,) if ctx.quick else (1.2, 1.3, 1.45)):
+            pth = os.path.join(ctx.work, f"axis{n}-{d}.pdb")
+            open(pth, "w").write(gen.pdb_text([pep, gen.water(tuple(by["CB"] + d * u), chain="W", resseq=500)]))
+            runs.append((pth, ["--ff=AMBER", "--noopt"]))
+            runs.append((pth, ["--ff=AMBER", "--noopt", "@again"]))
     res = core.pmap(_work_run, runs, chunksize=1)
     by_size = {}
     for (path, opts), (segs, exc, unobs) in zip(runs, res):
